@@ -254,3 +254,48 @@ Theorem C10_reload_example :
     canon s1 = canon s1' /\ st1 = st1').
 Proof. exact (conj hist_guarded (conj reload_example reload_continues_example)). Qed.
 Print Assumptions C10_reload_example.
+
+(* ================================================================================================================
+   The observation compared with the library (Store/ReloadObsDefs.v, executed by ocaml/StoreObs_driver.ml against a
+   fresh instance loaded from the real storage): [load_obs P st ids] = load the storage image and show, for the given
+   ids and every further loaded tree block, parent, height, C++ status word, payload ids, containing endorsements,
+   refcount, finalized mark and the endorsedBy list; [obs_state] the same of a live state. [obs_agree]: same tip,
+   same ids, equal observations, endorsedBy equal up to order. *)
+From VB Require Import Store.ReloadObsDefs Store.ReloadObsProofs.
+
+(* for every guarded history with saves at any positions the observed load of the accumulated storage succeeds and
+   shows exactly the live state at the last save; blocks it shows beyond the requested ids are blocks of the live state *)
+Theorem C10_reload_obs :
+  forall h s st ids,
+  guarded h init storage0 ->
+  run prims_fixed (h ++ [OSave]) init storage0 = Done s st ->
+  exists o, load_obs prims_fixed st ids = inl o /\
+            exists ids', obs_agree o (obs_state s (ids ++ ids')) /\ forall id, In id ids' -> lookup (blocks s) id <> None.
+Proof. exact reload_obs. Qed.
+Print Assumptions C10_reload_obs.
+
+(* a crash after any completed save (whatever ran after it): the storage image of that save shows the state of that save *)
+Theorem C10_crash_obs :
+  forall h1 h2 s1 st1 ids,
+  guarded (h1 ++ [OSave] ++ h2) init storage0 ->
+  run prims_fixed (h1 ++ [OSave]) init storage0 = Done s1 st1 ->
+  exists o, load_obs prims_fixed st1 ids = inl o /\
+            exists ids', obs_agree o (obs_state s1 (ids ++ ids')) /\ forall id, In id ids' -> lookup (blocks s1) id <> None.
+Proof. exact crash_obs. Qed.
+Print Assumptions C10_crash_obs.
+
+(* satisfiable and not trivial: the fork/invalidate/remove/endorse history is guarded, its observed load shows the
+   live tip, at least 3 blocks, a block with containing endorsements and a block with endorsedBy entries *)
+Theorem C10_reload_obs_satisfiable :
+  guarded ((hist1 ++ [OSave]) ++ hist2) init storage0 /\
+  match run prims_fixed (hist1 ++ [OSave]) init storage0 with
+  | Done s st => match load_obs prims_fixed st [] with
+                 | inl o => fst o = tip s /\ (3 <=? N.of_nat (length (snd o))) = true /\
+                            existsb (fun x => match snd (fst x) with Some b => negb (match o_ce b with [] => true | _ => false end) | None => false end) (snd o) = true /\
+                            existsb (fun x => negb (match snd x with [] => true | _ => false end)) (snd o) = true
+                 | inr _ => False
+                 end
+  | Abort _ => False
+  end.
+Proof. exact reload_obs_example. Qed.
+Print Assumptions C10_reload_obs_satisfiable.
